@@ -333,6 +333,7 @@ func evalC19PlanOnce(p c19Plan, scale int) *Failure {
 	what := p.describe()
 	srv := redis.NewServer()
 	rec := doubles.NewRecorder()
+	rec.Discard = true // the oracle of a churn plan never reads the calls; retained 32 KiB results of many cycles exhaust memory
 	big := strings.Repeat("x", 32*1024)
 	rec.ResultFn = func(cl *doubles.Call) doubles.Result {
 		if cl.Method == "Get" && len(cl.Args) > 0 && cl.Args[0] == "big" {
